@@ -13,6 +13,7 @@ var c09Constraints = map[System][]string{
 		"d.d.d-l", ">=d.d", "<d.d", ">d.d.d-l || <d.d.d-l", // 20-23
 		"d.x || d.x", ">=d.d.d-l || ^d.d.d || d.d.d", "^d.d || ~d.x.x-l", "<d.d.d-0d", "d.d.d || d.d.d || d.d.d", // 24-28
 		"{(d.d.d:d.d.d]}", "{[d.d.d:d.d.d]}", "{[d.d.d:d.d.d)}", "{(d.d.d:d.d.d),[d.d.d:d.d.d]}", // spans written in the set syntax: open and closed ends 29-32
+		">=0.0.0-0.d <d.d.d", ">0.0.0-0.l", // 33-34: lower bounds just above the minimum version 0.0.0-0
 	},
 	NPM: {
 		"d.d.d", ">=d.d.d", "<d.d.d", ">d.d.d", "<=d.d.d",
@@ -22,6 +23,7 @@ var c09Constraints = map[System][]string{
 		"d.d.d-l", ">=d.d", "<d.d", ">d.d.d-l || <d.d.d-l",
 		"d.x || d.x", ">=d.d.d-l || ^d.d.d || d.d.d", "^d.d || ~d.x.x-l", "<d.d.d-0d", "d.d.d || d.d.d || d.d.d",
 		"{(d.d.d:d.d.d]}", "{[d.d.d:d.d.d]}", "{[d.d.d:d.d.d)}", "{(d.d.d:d.d.d),[d.d.d:d.d.d]}", // spans written in the set syntax: open and closed ends
+		">=0.0.0-0.d <d.d.d", ">0.0.0-0.l",
 	},
 	Cargo: {
 		"d.d.d", ">=d.d.d", "<d.d.d", ">d.d.d", "<=d.d.d",
@@ -31,6 +33,7 @@ var c09Constraints = map[System][]string{
 		"=d.d.d-l", ">=d.d", "<d.d", "^0.0.d",
 		"=d.d.d-0d", "<d.d.d-0d", // 24-25: an all-digit prerelease identifier with a leading zero is not a number here
 		"{(d.d.d:d.d.d]}", "{[d.d.d:d.d.d]}", "{[d.d.d:d.d.d)}", "{(d.d.d:d.d.d),[d.d.d:d.d.d]}", // spans written in the set syntax: open and closed ends 26-29
+		">=0.0.0-0.d, <d.d.d", ">0.0.0-0.l", // 30-31
 	},
 	Go: {
 		"vd.d.d", "vd.d.d-l", "v0.d.d", "v1.d.d", "vd.d.d-00d",
@@ -39,9 +42,9 @@ var c09Constraints = map[System][]string{
 }
 
 var c09Versions = map[System][]string{
-	DefaultSystem: {"d.d.d", "d.d.d-l", "d.d.d-d", "d.d"},
-	NPM:           {"d.d.d", "d.d.d-l", "d.d.d-d", "d.d"},
-	Cargo:         {"d.d.d", "d.d.d-l", "d.d.d-d", "d.d"},
+	DefaultSystem: {"d.d.d", "d.d.d-l", "d.d.d-d", "d.d", "0.0.0-0.d", "0.0.0-d"},
+	NPM:           {"d.d.d", "d.d.d-l", "d.d.d-d", "d.d", "0.0.0-0.d", "0.0.0-d"},
+	Cargo:         {"d.d.d", "d.d.d-l", "d.d.d-d", "d.d", "0.0.0-0.d", "0.0.0-d"},
 	Go:            {"vd.d.d", "vd.d.d-l", "vd.d.d-d", "v0.d.d"},
 }
 
